@@ -395,3 +395,6 @@ func init() {
 		},
 	})
 }
+
+// edKeyRaw: deterministic tendermint ed25519 key from a seed string.
+func edKeyRaw(seed string) ed25519.PrivKeyEd25519 { return ed25519.GenPrivKeyFromSecret([]byte(seed)) }
